@@ -636,6 +636,94 @@ func c06Unblocked(dir string, res *ev.Result, tag string, nlate, callers int) {
 	res.Seen("unblocked-events-during-registrations")
 }
 
+// c06Cancelled: a runtime caller gives up on its own request (its context is cancelled, or was cancelled
+// before the call) while a healthy plugin is still handling it: nobody is dropped for that, every plugin
+// receives the following events exactly once.
+func c06Cancelled(dir string, res *ev.Result, tag string) {
+	what := map[string]any{"scenario": "caller cancels its context while a healthy plugin handles the request"}
+	mkdirAll(dir)
+	rt, err := rig.NewRuntime(dir)
+	if err != nil {
+		res.Note("runtime: %v", err)
+		return
+	}
+	if err := rt.Start(); err != nil {
+		res.Note("start: %v", err)
+		return
+	}
+	var mu sync.Mutex
+	inv := map[string][]int{}
+	var plugins []*rig.Plugin
+	defer func() {
+		rt.Stop()
+		for _, p := range plugins {
+			p.StopStub()
+		}
+	}()
+	res.Eval()
+	for pos := 0; pos < 3; pos++ {
+		h := rig.Handlers{Any: func(_ api.Event, pod *api.PodSandbox, ctr *api.Container) {
+			id := pod.GetId()
+			if ctr != nil {
+				id = ctr.GetId()
+			}
+			mu.Lock()
+			inv[id] = append(inv[id], pos)
+			mu.Unlock()
+			if strings.Contains(id, "slow") && pos == 1 {
+				time.Sleep(120 * time.Millisecond)
+			}
+		}}
+		p := rig.NewPlugin(fmt.Sprintf("c%d", pos), fmt.Sprintf("%02d", 20+10*pos), 0, h)
+		plugins = append(plugins, p)
+		if err := p.Connect(rt.Sock); err != nil || !p.WaitSynced(20*time.Second) {
+			res.Note("%s: plugin %d did not register: %v", tag, pos, err)
+			res.Inconcl()
+			return
+		}
+	}
+	rt.A.BlockPluginSync().Unblock()
+	for round, e := range []api.Event{api.Event_START_CONTAINER, api.Event_CREATE_CONTAINER, api.Event_UPDATE_CONTAINER, api.Event_STOP_POD_SANDBOX} {
+		id := fmt.Sprintf("%s-slow%d", tag, round)
+		ctx, cancel := context.WithCancel(context.Background())
+		if round%2 == 0 {
+			time.AfterFunc(25*time.Millisecond, cancel)
+		} else {
+			cancel() // cancelled before the call
+		}
+		pod := &api.PodSandbox{Id: id, Name: id}
+		ctr := &api.Container{Id: id, PodSandboxId: id, Name: id}
+		b := rt.A.BlockPluginSync()
+		switch e {
+		case api.Event_START_CONTAINER:
+			rt.A.StartContainer(ctx, &api.StateChangeEvent{Pod: pod, Container: ctr})
+		case api.Event_CREATE_CONTAINER:
+			rt.A.CreateContainer(ctx, &api.CreateContainerRequest{Pod: pod, Container: ctr})
+		case api.Event_UPDATE_CONTAINER:
+			rt.A.UpdateContainer(ctx, &api.UpdateContainerRequest{Pod: pod, Container: ctr, LinuxResources: &api.LinuxResources{}})
+		case api.Event_STOP_POD_SANDBOX:
+			rt.A.StopPodSandbox(ctx, &api.StateChangeEvent{Pod: pod})
+		}
+		b.Unblock()
+		cancel()
+		time.Sleep(150 * time.Millisecond) // whatever is still being handled finishes
+		for k := 0; k < 2; k++ {
+			fid := fmt.Sprintf("%s-after%d.%d", tag, round, k)
+			b := rt.A.BlockPluginSync()
+			_, err := c06Issue(rt.A, allEvents[(round*2+k)%len(allEvents)], fid)
+			b.Unblock()
+			mu.Lock()
+			got := fmt.Sprint(inv[fid])
+			mu.Unlock()
+			if err != nil || got != "[0 1 2]" {
+				res.Violate("C06/missed-invocation/after-cancelled-call", fmt.Sprintf("after a caller cancelled its own %s request (all plugins healthy), the next request %s returned %v and invoked plugins %s, want all of [0 1 2] once", e, fid, err, got), what)
+				return
+			}
+		}
+	}
+	res.Seen("caller-cancels-context")
+}
+
 // c06AfterIdle: plugins that registered against a large runtime state (their snapshot is sent in several
 // messages) or a small one stay registered while the runtime is idle for longer than the request
 // timeout; every event issued afterwards reaches each of them exactly once.
@@ -759,6 +847,8 @@ func runC06(c *ev.ChildEnv, res *ev.Result) {
 	installAdaptationHook(hook)
 	c.WAL("unblocked scenario")
 	c06Unblocked(c.Dir+"/unblocked", res, fmt.Sprintf("c06u%d", c.Batch), 60, 6)
+	c.WAL("cancelled-caller scenario")
+	c06Cancelled(c.Dir+"/cancelled", res, fmt.Sprintf("c06x%d", c.Batch))
 	c.WAL("idle scenario")
 	c06AfterIdle(c.Dir, res, fmt.Sprintf("c06b%d", c.Batch))
 	gm := rand.New(rand.NewPCG(uint64(c.Seed), 600)) // same mask list in every child
